@@ -357,6 +357,27 @@ impl<'a, C: Crypto> PaseResponder<'a, C> {
     ) -> Result<bool, Error> {
         expect_opcode(exchange, OpCode::PASEPake3).await?;
 
+        // The commissioning window may have been closed, revoked or may have expired
+        // since PASEPake1: a PASE session must only come into existence while it is open.
+        let has_comm_window = {
+            let notify_mdns = || exchange.matter().transport().notify_mdns_changed();
+            let notify_change =
+                |endpt_id, cluster_id| self.notify.notify_cluster_changed(endpt_id, cluster_id);
+
+            exchange.with_state(|state| {
+                state
+                    .pase
+                    .check_comm_window_timeout(notify_mdns, notify_change)?;
+
+                Ok(state.pase.comm_window().is_some())
+            })?
+        };
+
+        if !has_comm_window {
+            debug!("Dropping PASEPake3: no commissioning window open");
+            return Ok(false);
+        }
+
         let req = get_root_node_struct(exchange.rx()?.payload())?;
         let pake3 = Pake3::from_tlv(&req)?;
         let ca: HmacHashRef<'_> = pake3.ca.0.try_into()?;
